@@ -7,6 +7,9 @@ PY = "/venv/bin/python"
 
 # property id -> (design section, technique, level text, level note)
 BUILT = {
+    "C11": ("§4.11", "exhaustive enumeration of the C11 6.4.4 literal grammar (bounded digit strings) x contexts against the real tokenizer",
+            "Every derivation of the literal grammar within the digit bounds, in every listed context, is lexed by the real Lexer: valid literals must be one clean token, members of malformed families must carry their diagnostic.",
+            "Trusts mc/model/literals.py as a faithful subset of C11 6.4.4 plus the named extensions; sandwich: what lies between valid and malformed sets is not judged."),
     "C09": ("§4.9", "input-trie enumeration of the tokenizer (all strings up to a length bound over focused "
             "alphabets) against an independent column scanner",
             "Every string of the bounded tries is lexed by the real Lexer and every token position is compared "
